@@ -40,6 +40,10 @@ pub struct ConnCase {
     /// bit e set: the engine state is built with seeded balances for the assets of exchange index e
     #[serde(default)]
     pub seed_balances: u8,
+    /// algorithmic trading is enabled and the strategy returns an order on every tick (so the audit
+    /// of a tick holds the strategy's orders next to whatever else the tick produced)
+    #[serde(default)]
+    pub strategy_trades: bool,
 }
 
 pub struct ConnectivityModel;
@@ -68,8 +72,8 @@ impl Check for ConnectivityModel {
             Tier::Quick => 40,
             Tier::Thorough => 80,
         };
-        (simple_world(1..=4, 0..3), prop::collection::vec((kind(), 0u8..4, any::<u8>()), 0..max), prop_oneof![2 => Just(0u8), 1 => 1u8..16])
-            .prop_map(|(defs, evs, seed_balances)| ConnCase { defs, events: evs.into_iter().map(|(kind, ex, variant)| ConnEv { kind, ex, variant }).collect(), seed_balances })
+        (simple_world(1..=4, 0..3), prop::collection::vec((kind(), 0u8..4, any::<u8>()), 0..max), prop_oneof![2 => Just(0u8), 1 => 1u8..16], prop::bool::weighted(0.3))
+            .prop_map(|(defs, evs, seed_balances, strategy_trades)| ConnCase { defs, events: evs.into_iter().map(|(kind, ex, variant)| ConnEv { kind, ex, variant }).collect(), seed_balances, strategy_trades })
             .boxed()
     }
 
@@ -89,7 +93,7 @@ impl Check for ConnectivityModel {
                 .collect();
             let state = barter::engine::state::EngineState::builder(&indexed, barter::engine::state::global::DefaultGlobalData, barter::engine::state::instrument::data::DefaultInstrumentMarketData::default)
                 .time_engine_start(crate::props::gens::ts(crate::props::gens::T0_MS))
-                .trading_state(TradingState::Disabled)
+                .trading_state(if case.strategy_trades { TradingState::Enabled } else { TradingState::Disabled })
                 .balances(seeded)
                 .build();
             Rig::with_state(indexed, state, &[Link::Healthy; 8])
@@ -101,6 +105,7 @@ impl Check for ConnectivityModel {
         let mut model = vec![(false, false); n_ex];
         let mut expected_calls: Vec<barter_instrument::exchange::ExchangeId> = Vec::new();
         let mut toggles = 0u32;
+        let mut late_items = 0u32;
         let mut prev_global = false;
         // an observer following the engine through its audit stream (state replica): its view of the
         // links and of the global flag is the engine's
@@ -148,7 +153,18 @@ impl Check for ConnectivityModel {
                 Kind::MarketReconnecting => EvSpec::MarketReconnecting { ex: ex as u8 },
                 Kind::AccountReconnecting => EvSpec::AccountReconnecting { ex: ex as u8 },
             };
-            let event = resolver.resolve(&spec);
+            let mut event = resolver.resolve(&spec);
+            // an item the venue stamped long before it was received (buffered on the exchange side, a
+            // re-subscribe replaying the last print, skewed clocks): still an item of that link
+            let late = ev.kind == Kind::MarketItem && ev.variant % 5 == 4;
+            if let (true, barter::EngineEvent::Market(barter_data::streams::consumer::MarketStreamEvent::Item(m))) = (late, &mut event) {
+                m.time_received = m.time_exchange + chrono::TimeDelta::seconds(45 + ev.variant as i64);
+                late_items += 1;
+            }
+            if case.strategy_trades {
+                let open = resolver.open_request(&crate::props::enginekit::ReqSpec { inst, cid: 0, refuse: false, unknown_exchange: false, buy: true });
+                rig.engine.strategy.push_script(vec![], vec![open]);
+            }
             let audit = rig.engine.process(event.clone());
             replica.update_from_event(event);
             if replica.state_replica.event.connectivity != rig.engine.state.connectivity {
@@ -219,6 +235,8 @@ impl Check for ConnectivityModel {
         rep.class_if(toggles >= 1, "global_became_healthy");
         rep.class_if(!expected_calls.is_empty(), "has_disconnect_notice");
         rep.class_if(case.seed_balances != 0, "state_built_with_seeded_balances");
+        rep.class_if(case.strategy_trades && !expected_calls.is_empty(), "strategy_sends_orders_on_the_tick_of_a_notice");
+        rep.class_if(late_items > 0, "market_item_received_long_after_its_exchange_time");
         rep.class_if(case.events.iter().any(|e| e.kind == Kind::AccountItem && matches!(e.variant % 6, 3 | 4)), "account_item_is_a_timeout_report");
         rep.nontrivial = n_ex >= 2 && toggles >= 2;
         rep
@@ -246,13 +264,13 @@ fn enumerate(n_ex: u8, max_len: usize) -> impl Iterator<Item = ConnCase> {
                 events.push(alpha[idx % n]);
                 idx /= n;
             }
-            ConnCase { defs: defs.clone(), events, seed_balances: 0 }
+            ConnCase { defs: defs.clone(), events, seed_balances: 0, strategy_trades: false }
         })
     })
 }
 
 pub fn run(ctx: &mut Ctx) {
-    ctx.rule = "connectivity_model: 1..4 exchanges (each with >= 1 instrument), vec(event,0..40|80) over {market item (trade / L1), account item (balance / order report / fill / cancel response ok or timed out / open request timed out), market reconnecting, account reconnecting} x exchange, processed by Engine::process from the initial all-reconnecting state (checked per link before the first event; in a third of the cases the state is built with balances seeded through the builder). non-trivial = >= 2 exchanges and the global health flag changed at least twice; distinct by hash of the case. Exhaustive: every sequence over {4 kinds} x {2 exchanges} up to length 4 (quick) / {3 exchanges} up to length 4 and {2 exchanges} up to length 5 (thorough).".into();
+    ctx.rule = "connectivity_model: 1..4 exchanges (each with >= 1 instrument), vec(event,0..40|80) over {market item (trade / L1), account item (balance / order report / fill / cancel response ok or timed out / open request timed out), market reconnecting, account reconnecting} x exchange, processed by Engine::process from the initial all-reconnecting state (checked per link before the first event; in a third of the cases the state is built with balances seeded through the builder; in 30% algorithmic trading is enabled and the strategy returns an order on every tick; a fifth of the market items are received 45..300 s after their exchange time). non-trivial = >= 2 exchanges and the global health flag changed at least twice; distinct by hash of the case. Exhaustive: every sequence over {4 kinds} x {2 exchanges} up to length 4 (quick) / {3 exchanges} up to length 4 and {2 exchanges} up to length 5 (thorough).".into();
     ctx.assumptions = vec!["every exchange of the collection has at least one instrument (it is how an exchange enters the index)".into()];
     ctx.run_regressions::<ConnectivityModel>();
     ctx.run::<ConnectivityModel>(ctx.tier.pick(120_000, 2_000_000));
